@@ -168,7 +168,9 @@ fn apply_delta(py: Python, py_src_buf: Py<PyAny>, py_delta: Py<PyAny>) -> PyResu
 
     let dest_size = get_delta_header_size(delta.as_ref(), &mut index, delta_len)
         .map_err(ApplyDeltaError::new_err)?;
-    let mut out = vec![0; dest_size];
+    // The declared size comes from the (untrusted) delta: grow the output as
+    // data actually arrives instead of allocating it up front.
+    let mut out: Vec<u8> = Vec::new();
     let mut outindex = 0;
 
     while index < delta_len {
@@ -215,7 +217,7 @@ fn apply_delta(py: Python, py_src_buf: Py<PyAny>, py_delta: Py<PyAny>) -> PyResu
                 break;
             }
 
-            out[outindex..outindex + cp_size].copy_from_slice(&src_buf[cp_off..cp_off + cp_size]);
+            out.extend_from_slice(&src_buf[cp_off..cp_off + cp_size]);
             outindex += cp_size;
         } else if cmd != 0 {
             // A truncated insert is an error, whatever the declared size
@@ -231,8 +233,7 @@ fn apply_delta(py: Python, py_src_buf: Py<PyAny>, py_delta: Py<PyAny>) -> PyResu
                 return Err(ApplyDeltaError::new_err("Not enough space to copy"));
             }
 
-            out[outindex..outindex + cmd as usize]
-                .copy_from_slice(&delta[index..index + cmd as usize]);
+            out.extend_from_slice(&delta[index..index + cmd as usize]);
             outindex += cmd as usize;
             index += cmd as usize;
         } else {
